@@ -348,6 +348,20 @@ class CodeBuilder:
         if cls is not None and not is_dataclass_dict_mixin(cls):
             return cls.__dict__[method_name]
 
+    def _is_compilation_postponed(self) -> bool:
+        # the method about to be emitted is a stub that compiles the real one
+        # on the first call; the stub handles every call, with or without
+        # a dialect, so that the default method always exists first
+        if not (self.allow_postponed_evaluation and self.is_nailed):
+            return False
+        if self.get_config().lazy_compilation:
+            return True
+        try:
+            self.get_field_types(include_extras=True)
+        except UnresolvedTypeReferenceError:
+            return True
+        return False
+
     def _add_unpack_method_lines_lazy(self, method_name: str) -> None:
         if self.default_dialect is not None:
             self.add_type_modules(self.default_dialect)
@@ -585,7 +599,11 @@ class CodeBuilder:
             self.add_line("@classmethod")
         self._add_unpack_method_definition(method_name)
         with self.indent():
-            if dialects_feature and self.dialect is None:
+            if (
+                dialects_feature
+                and self.dialect is None
+                and not self._is_compilation_postponed()
+            ):
                 with self.indent("if dialect is None:"):
                     self._add_unpack_method_lines(method_name)
                 with self.indent("else:"):
@@ -1142,7 +1160,11 @@ class CodeBuilder:
 
         self._add_pack_method_definition(method_name)
         with self.indent():
-            if dialects_feature and self.dialect is None:
+            if (
+                dialects_feature
+                and self.dialect is None
+                and not self._is_compilation_postponed()
+            ):
                 with self.indent("if dialect is None:"):
                     self._add_pack_method_lines(method_name)
                 with self.indent("else:"):
